@@ -107,11 +107,26 @@ Fixpoint dict_set {K V} (eqb : K -> K -> bool) (l : list (K * V)) (k : K) (v : V
 Definition nat2_eqb (a b : nat * nat) : bool := Nat.eqb (fst a) (fst b) && Nat.eqb (snd a) (snd b).
 Definition place2_eqb (a b : place * place) : bool := place_eqb (fst a) (fst b) && place_eqb (snd a) (snd b).
 
+Fixpoint insert_nat (a : nat) (l : list nat) : list nat :=
+  match l with [] => [a] | h :: t => if Nat.leb a h then a :: l else h :: insert_nat a t end.
+Definition sort_nat (l : list nat) : list nat := fold_right insert_nat [] l.
+Fixpoint dedup_first (l : list nat) : list nat :=
+  match l with
+  | [] => []
+  | h :: t => h :: filter (fun k => negb (Nat.eqb k h)) (dedup_first t)
+  end.
+
 Definition setup_of (m nmach : nat) : res (list ((nat * nat) * tcfg)) :=
   match d_setup d with
   | None =>
-      (* defaults: tools tl-0 .. tl-(nm-1), all zero *)
-      Ok (flat_map (fun a => map (fun b => ((a, b), Det 0)) (seq 0 nmach)) (seq 0 nmach))
+      (* defaults, all zero: tools tl-0 .. tl-(nm-1), followed by the tools the document uses that are not among
+         them (sorted; fix 2fd7d97: the default has to cover every tool used). Tool numbers below 10 only: the
+         implementation sorts the tool NAMES *)
+      let tools := match d_tools d with
+                   | None => seq 0 nmach
+                   | Some tu => dedup_first (seq 0 nmach ++ sort_nat (concat tu))
+                   end in
+      Ok (flat_map (fun a => map (fun b => ((a, b), Det 0)) tools) tools)
   | Some l =>
       match find (fun e => Nat.eqb (fst e) m) l with
       | None => Err EInvalidValue            (* InvalidSetupTimesError *)
